@@ -1,6 +1,6 @@
 (* Props/C03.v -- C03: ciphertext integrity.  Statements only. *)
 From Rpgp Require Import Base.Octets Base.Res Aead.Seipd2 Aead.Seipd2Proofs Aead.Seipd2Integrity
-  Sym.Cfb Sym.CfbProofs Sym.Seipd1Machine Sym.Seipd1MachineProofs Aead.Seipd2Machine Aead.Seipd2MachineProofs.
+  Sym.Cfb Sym.CfbProofs Sym.Seipd1Machine Sym.Seipd1MachineProofs Aead.Seipd2Machine Aead.Seipd2MachineProofs Aead.Gnupg Aead.GnupgProofs.
 
 (* ---------------- SEIPD v2 ---------------- *)
 
@@ -167,3 +167,38 @@ Example C03_ex_v2_machine :
     (seipd2_enc toy_seal 4 [] [x01] [x02] [x61; x62; x63; x64; x65; x66; x67; x68; x69]) =
   ([x61; x62; x63; x64; x65; x66; x67; x68; x69], AClean).
 Proof. vm_compute. reflexivity. Qed.
+
+(* ---------------- packet 20 (GnuPG / LibrePGP OCB encrypted data), read when the caller opts in ----------------
+   the same stream functions and the same machine, over the primitive as this container calls it: *)
+Theorem C03_gnupg_primitive_calls :
+  forall X (f : bytes -> bytes -> bytes -> bytes -> X) key iv sym aead cs i x, lenN iv >= 8 ->
+    g_wrap f key (nonce_of iv i) (ginfo sym aead cs) x =
+    f key (takeN (lenN iv - 8) iv ++ xor_bytes (dropN (lenN iv - 8) iv) (be64 i))
+          ([xd4; x01; n2b sym; n2b aead; n2b cs] ++ be64 i) x.
+Proof. intros X f. exact (g_wrap_calls f). Qed.
+Print Assumptions C03_gnupg_primitive_calls.
+
+Theorem C03_gnupg_roundtrip :
+  forall seal open,
+    (forall k n ad p, open k n ad (seal k n ad p) = Some p) ->
+    (forall k n ad p, lenN (seal k n ad p) = lenN p + TAGLEN) ->
+    forall sym aead cs key iv p, gnupg_dec open sym aead cs key iv (gnupg_enc seal sym aead cs key iv p) = Some p.
+Proof. exact gnupg_roundtrip. Qed.
+Print Assumptions C03_gnupg_roundtrip.
+
+Theorem C03_gnupg_stream_refines :
+  forall seal open,
+    (forall k n ad p, open k n ad (seal k n ad p) = Some p) ->
+    (forall k n ad p, lenN (seal k n ad p) = lenN p + TAGLEN) ->
+    forall sym aead cs key iv ct out,
+      gnupg_stream_dec open sym aead cs key iv ct = (out, true) -> gnupg_dec open sym aead cs key iv ct = Some out.
+Proof. exact gnupg_stream_refines. Qed.
+Print Assumptions C03_gnupg_stream_refines.
+
+Theorem C03_gnupg_stream_machine_is_spec :
+  forall open, (forall k n a x pt, open k n a x = Some pt -> lenN pt + TAGLEN = lenN x) ->
+    forall sym aead cs key iv (req : N -> N) ct,
+      gnupg_run open sym aead cs key iv req ct =
+      (fst (gnupg_stream_dec open sym aead cs key iv ct), oc_of2 (snd (gnupg_stream_dec open sym aead cs key iv ct))).
+Proof. exact gnupg_machine_is_spec. Qed.
+Print Assumptions C03_gnupg_stream_machine_is_spec.
